@@ -746,6 +746,28 @@ impl Core {
         .await
     }
 
+    /// `Core::on_tunnel_request` over a caller-supplied codec, as its own task
+    pub(crate) fn verif_spawn_tunnel(
+        &self,
+        protocol: tls_demultiplexer::Protocol,
+        codec: Box<dyn HttpCodec>,
+        server_name: String,
+        sni_auth_creds: Option<String>,
+    ) -> tokio::task::JoinHandle<()> {
+        let context = self.context.clone();
+        tokio::spawn(async move {
+            Self::on_tunnel_request(
+                context,
+                protocol,
+                codec,
+                server_name,
+                sni_auth_creds,
+                log_utils::IdChain::empty(),
+            )
+            .await
+        })
+    }
+
     pub(crate) fn verif_settings(&self) -> Arc<Settings> {
         self.context.settings.clone()
     }
